@@ -235,6 +235,26 @@ class BufferAnalysis:
         self.lines = lines
         self.fn = None
         self.reported = set()
+        self.members = {}      # name -> [decl]: member functions of the class with a body
+        self.inline = set()    # private helpers whose buffer accesses are judged where they are called
+        self.quiet = 0         # >0: inside a helper that is also judged on its own — requirements are not reported twice
+        self.subst = [{}]      # parameter -> argument text of the helper calls being expanded
+        self.bools = {}        # boolean locals of the function under analysis -> initialiser node
+        self.depth = 0
+
+    def T(self, n):
+        """text of a node with the parameters of expanded helpers replaced by the arguments"""
+        t = txt(n)
+        for name, val in self.subst[-1].items():
+            t = re.sub(r"(?<![\w.:])%s(?![\w(])" % re.escape(name), val, t)
+        return t
+
+    def kill(self, st, name):
+        """a variable was overwritten: what was known in terms of it is gone"""
+        pat = re.compile(r"(?<![\w.:])%s(?![\w(])" % re.escape(name))
+        st.facts = {f for f in st.facts if not pat.search(f)}
+        st.alias = {a for a in st.alias if a != name}
+        return st
 
     # ---- conditions ----
     def is_remaining(self, t):
@@ -247,9 +267,22 @@ class BufferAnalysis:
         inner = c.get("inner", []) or []
         if k in ("ImplicitCastExpr", "ParenExpr", "ExprWithCleanups") and inner:
             return self.cond(inner[-1], st)
+        if k == "UnaryOperator" and c.get("opcode") == "!" and inner:
+            a, b = self.cond(inner[0], st)
+            return b, a
+        if k == "DeclRefExpr" and (c.get("referencedDecl") or {}).get("name") in self.bools:
+            # an explaining local: `bool const ok = <test>; if (ok)`
+            return self.cond(self.bools[(c.get("referencedDecl") or {}).get("name")], st)
+        if k == "CXXMemberCallExpr" and len(inner) == 1:
+            # a predicate member without parameters whose body is `return <test>;`
+            for fn in self.members.get(callee_name(c).split("::")[-1], []):
+                b = body_of(fn)
+                stmts = [x for x in (b.get("inner") or []) if isinstance(x, dict)] if b else []
+                if len(stmts) == 1 and stmts[0].get("kind") == "ReturnStmt" and stmts[0].get("inner") and not params_of(fn):
+                    return self.cond(stmts[0]["inner"][0], st)
         if k == "BinaryOperator":
             op = c.get("opcode")
-            l, r = txt(inner[0]), txt(inner[1])
+            l, r = self.T(inner[0]), self.T(inner[1])
             ptrs = {"buffer_ptr_", "buffer_end_ptr_"}
             if op in ("==", "!=") and {l, r} == ptrs:
                 eq, ne = (t, f) if op == "==" else (f, t)
@@ -277,6 +310,10 @@ class BufferAnalysis:
                     t.lo, t.facts = 0, set()
                     f.lo = max(f.lo, 1)
                     return t, f
+                if op == "!=" and val == 0:
+                    f.lo, f.facts = 0, set()
+                    t.lo = max(t.lo, 1)
+                    return t, f
                 if op == ">" and val is not None:
                     t.lo = max(t.lo, val + 1)
                     return t, f
@@ -295,6 +332,8 @@ class BufferAnalysis:
 
     # ---- requirements ----
     def need(self, node, what, nbytes_txt, st):
+        if self.quiet:
+            return
         line = self.lines.of(node)
         key = "%s.%s/%s" % (self.cls, self.fn, what)
         site = (self.fn, what, line)
@@ -348,8 +387,8 @@ class BufferAnalysis:
                 return State(post, set(), set())
             if name == "memcpy" and len(args) == 3:
                 ptr_arg = 1 if self.reader else 0
-                if txt(args[ptr_arg]) == "buffer_ptr_":
-                    self.need(n, "memcpy(%s)" % txt(args[2]), txt(args[2]), st)
+                if self.T(args[ptr_arg]) == "buffer_ptr_":
+                    self.need(n, "memcpy(%s)" % self.T(args[2]), self.T(args[2]), st)
                 return st
             if "buffer_ptr_" in [txt(a) for a in args]:
                 if "FixedIntegerFastFromArray" in name:
@@ -368,16 +407,59 @@ class BufferAnalysis:
                 return st
             if name.startswith("stream_") or name in ("eof", "gcount", "read", "write", "flush", "bad", "data", "size"):
                 return st
+            # a private helper of the class: its statements, with the arguments for the parameters. Its buffer accesses
+            # are judged here when they cannot be judged on its own (name in self.inline); otherwise only its effect on
+            # what is known counts.
+            short = name.split("::")[-1]
+            cands = self.members.get(short, [])
+            if len(cands) == 1 and short in self.private and self.depth < 3 and k == "CXXMemberCallExpr":
+                fn = cands[0]
+                params = [q.get("name") for q in params_of(fn)]
+                env = dict(self.subst[-1])
+                for prm, a in zip(params, args):
+                    if prm:
+                        env[prm] = self.T(a)
+                self.subst.append(env)
+                self.depth += 1
+                if short not in self.inline:
+                    self.quiet += 1
+                saved_bools = self.bools
+                self.bools = {}
+                try:
+                    rets = []
+                    after = self.stmt(body_of(fn), st.copy(), [], rets)
+                finally:
+                    self.bools = saved_bools
+                    if short not in self.inline:
+                        self.quiet -= 1
+                    self.depth -= 1
+                    self.subst.pop()
+                outs = rets + ([after] if after is not None else [])
+                if not outs:
+                    return State(0, set(), set())
+                res = outs[0]
+                for o in outs[1:]:
+                    res = res.join(o)
+                # what the helper knew in terms of its own locals does not survive the call
+                res.alias = {a for a in res.alias if a in st.alias}
+                return res
             # any other member function manages the buffer itself: nothing is known afterwards
             return State(0, set(), set())
         if k == "UnaryOperator" and n.get("opcode") == "*":
-            t = txt(inner[0])
+            t = txt(inner[0]).replace(" ", "")
             if t in ("buffer_ptr_++", "buffer_ptr_"):
                 self.need(n, "*buffer_ptr_++", "1", st)
+                if t == "buffer_ptr_":
+                    return st  # looked at, not consumed: the increment is a statement of its own
                 st = st.copy()
                 st.lo = max(0, st.lo - 1) if st.lo < BIG else BIG
                 st.facts, st.alias = set(), set()
                 return st
+        if k == "UnaryOperator" and n.get("opcode") in ("++", "--") and inner and txt(inner[0]).replace(" ", "") == "buffer_ptr_":
+            st = st.copy()
+            st.lo = max(0, st.lo - 1) if st.lo < BIG else BIG
+            st.facts, st.alias = set(), set()
+            return st
         if k in ("BinaryOperator", "CompoundAssignOperator"):
             # assignment through *buffer_ptr_++ = x (writer) is a UnaryOperator child: handled by recursion
             for c in inner:
@@ -386,6 +468,13 @@ class BufferAnalysis:
                 st = st.copy()
                 st.facts, st.alias = set(), set()
                 st.lo = 0 if st.lo < BIG else BIG
+            elif (k == "CompoundAssignOperator" or n.get("opcode") == "=") and inner and inner[0].get("kind") == "DeclRefExpr":
+                # a local or parameter is overwritten
+                name = (inner[0].get("referencedDecl") or {}).get("name")
+                if name and name not in ("buffer_ptr_", "buffer_end_ptr_"):
+                    st = self.kill(st.copy(), self.subst[-1].get(name, name))
+                    if n.get("opcode") == "=" and len(inner) > 1 and self.is_remaining(self.T(inner[1])):
+                        st.alias.add(name)
             return st
         for c in inner:
             if isinstance(c, dict):
@@ -437,9 +526,42 @@ class BufferAnalysis:
             for e in exits[1:]:
                 res = res.join(e)
             return res
+        if k == "ForStmt":
+            # clang: [init, condition variable, condition, increment, body]; absent parts are empty
+            parts = list(inner) + [{}] * (5 - len(inner))
+            init, cond, inc, body = parts[0], parts[2], parts[3], parts[4]
+            if init.get("kind"):
+                st = self.stmt(init, st, brk, ret)
+                if st is None:
+                    return None
+            infinite = not cond.get("kind")
+            head = st.copy()
+            exits = []
+            for _ in range(6):
+                breaks = []
+                if infinite:
+                    t, f = head.copy(), None
+                else:
+                    hs = self.expr(cond, head.copy())
+                    t, f = self.cond(cond, hs)
+                after = self.stmt(body, t, breaks, ret) if body.get("kind") else t
+                if after is not None and inc.get("kind"):
+                    after = self.expr(inc, after)
+                new_head = head if after is None else head.join(after)
+                exits = list(breaks) + ([] if infinite else [f])
+                if new_head.eq(head):
+                    break
+                head = new_head
+            if not exits:
+                return None
+            res = exits[0]
+            for e in exits[1:]:
+                res = res.join(e)
+            return res
         if k == "ReturnStmt":
             for c in inner:
                 st = self.expr(c, st)
+            ret.append(st)
             return None
         if k == "BreakStmt":
             brk.append(st)
@@ -449,8 +571,10 @@ class BufferAnalysis:
                 init = (d.get("inner") or [None])[-1] if d.get("inner") else None
                 if init is not None and isinstance(init, dict):
                     st = self.expr(init, st)
-                    it = txt(init).replace(" ", "")
-                    if self.is_remaining(txt(init)) or it.startswith("std::min(") and "buffer_end_ptr_-buffer_ptr_" in it or it.startswith("min("):
+                    it = self.T(init).replace(" ", "")
+                    if ((d.get("type") or {}).get("qualType", "")).replace("const", "").strip() == "bool":
+                        self.bools[d.get("name")] = init
+                    if self.is_remaining(self.T(init)) or it.startswith("std::min(") and "buffer_end_ptr_-buffer_ptr_" in it or it.startswith("min(") or self.min_with_alias(init, st):
                         st = st.copy()
                         st.alias.add(d.get("name"))
             return st
@@ -466,8 +590,32 @@ class BufferAnalysis:
             return None
         return st
 
+    def min_with_alias(self, init, st):
+        """`a < b ? a : b` (any of the four spellings) or std::min(a, b) where a or b is the available count"""
+        x = init
+        while x.get("kind") in ("ImplicitCastExpr", "ParenExpr", "ExprWithCleanups") and x.get("inner"):
+            x = x["inner"][-1]
+        known = lambda t: self.is_remaining(t) or t in st.alias
+        if x.get("kind") == "ConditionalOperator" and len(x.get("inner") or []) == 3:
+            c, a, b = x["inner"]
+            while c.get("kind") in ("ImplicitCastExpr", "ParenExpr") and c.get("inner"):
+                c = c["inner"][-1]
+            if c.get("kind") == "BinaryOperator" and c.get("opcode") in ("<", "<=", ">", ">="):
+                l, r = self.T(c["inner"][0]), self.T(c["inner"][1])
+                ta, tb = self.T(a), self.T(b)
+                smaller_first = c.get("opcode") in ("<", "<=")
+                picks_min = (smaller_first and ta == l and tb == r) or (not smaller_first and ta == r and tb == l)
+                return picks_min and (known(ta) or known(tb))
+        if x.get("kind") == "CallExpr" and callee_name(x).split("::")[-1] == "min":
+            return any(known(self.T(a)) for a in (x.get("inner") or [])[1:])
+        return False
+
     def run_function(self, name, fn):
         self.fn = name
+        self.bools = {}
+        self.subst = [{}]
+        self.quiet = 0
+        self.depth = 0
         body = body_of(fn)
         if body is None:
             return
@@ -498,7 +646,7 @@ def fill_postcondition(cls, fill_name):
 def rule_coded_stream_bounds(out, tier):
     rid_r, rid_w = "CB1", "CB2"
     out.rule(rid_r, "coded_stream.h CodedInputStream: every read through buffer_ptr_ (*buffer_ptr_++, memcpy from buffer_ptr_, *FastFromArray(.., buffer_ptr_)) is "
-                    "covered on every path by a test establishing enough bytes AFTER the last FillBuffer() (which may deliver fewer bytes than needed, or none at EOF)", 6)
+                    "covered on every path by a test establishing enough bytes AFTER the last FillBuffer() (which may deliver fewer bytes than needed, or none at EOF)", 4)
     out.rule(rid_w, "coded_stream.h CodedOutputStream: every store through buffer_ptr_ is covered on every path by a `RemainingBufferSpace() < N → FlushBuffer()` "
                     "test with N >= the bytes stored (varint: 5 for 32-bit, 10 for 64-bit)", 5)
     roots, rc, err = dump(out.repo, "coded_stream.h")
@@ -524,12 +672,50 @@ def rule_coded_stream_bounds(out, tier):
         else:
             post = {"FlushBuffer": BIG}
         ba = BufferAnalysis(out, rid, rel, cname, reader, post, Lines())
+        skip = ("FillBuffer", "FlushBuffer", "RemainingBufferSpace", cname, "~" + cname, "VerifyFinished", "FillBufferOrThrow", "RequireData", "WriteVarInt")
+        # member functions and their access: private helpers are expanded where they are called
+        ba.private = set()
+        access = "private"
+        for ch in cls.get("inner") or []:
+            if not isinstance(ch, dict):
+                continue
+            if ch.get("kind") == "AccessSpecDecl":
+                access = ch.get("access", access)
+                continue
+            for nm, fn in functions_in(ch):
+                if nm in skip or fn.get("storageClass") == "static":
+                    continue
+                ba.members.setdefault(nm, []).append(fn)
+                if access == "private":
+                    ba.private.add(nm)
+        # a private helper that cannot be judged on its own (what it needs is established by its callers) is judged
+        # at every call site instead
+        class _Trial:
+            def __init__(self):
+                self.obs, self.n_bad = [], 0
+            def ok(self, *a):
+                pass
+            def bad(self, *a):
+                self.n_bad += 1
+        for nm in sorted(ba.private):
+            if len(ba.members.get(nm, [])) != 1:
+                continue
+            trial = _Trial()
+            tb = BufferAnalysis(trial, rid, rel, cname, reader, post, Lines())
+            tb.members, tb.private = ba.members, ba.private
+            tb.run_function(nm, ba.members[nm][0])
+            if trial.n_bad:
+                ba.inline.add(nm)
+        out.stats[rid + "_helpers_judged_at_call_sites"] = sorted(ba.inline)
         seen = set()
         for name, fn in functions_in(cls):
             if name in ("FillBuffer", "FlushBuffer", "RemainingBufferSpace", cname, "~" + cname, "VerifyFinished", "FillBufferOrThrow", "RequireData"):
                 continue
             if name == "WriteVarInt":
                 continue  # private; its space requirement is checked at each call site
+            if name in ba.inline:
+                # every call site must be inside the class (private) — and is judged there
+                continue
             key = (name, fn.get("_line", 0))
             if key in seen:
                 continue
